@@ -23,7 +23,7 @@ RULE = ("Hypothesis: graphs with http(s) IRI nodes, plain-string literals over [
         "to each other, or inverse paths, or a cap below a class size; distinct by SHA-1 of the case.")
 ASSUMPTIONS = c01.ASSUMPTIONS + ["the endpoint is rdflib's SPARQL engine behind shexer.io.sparql.query.SPARQLWrapper (replaced from outside)",
                                  "literal datatypes other than string / langString / integer are outside the domain (C15-DATATYPE known finding)"]
-BUDGET = {"quick": {"examples": 4000, "wall": 200}, "thorough": {"examples": 60000, "wall": 5400}}
+BUDGET = {"quick": {"examples": 4000, "wall": 200}, "thorough": {"examples": 30000, "wall": 900}}
 FLOORS = {"nontrivial": 0.3, "mode:classes": 0.1, "mode:all": 0.1, "mode:sm": 0.1, "cap": 0.1}
 KNOWN = ("C01-NONLIT", "C01-NONLIT-KLS", "C02-MIXEDKIND", "C02-GONEREF")
 
